@@ -4,6 +4,7 @@ import (
 	"fmt"
 	"strconv"
 	"strings"
+	"sync"
 	"testing"
 
 	res "github.com/jirenius/go-res"
@@ -18,6 +19,21 @@ import (
 // patterns, GetHandler finds a handler for a name exactly when Pattern(path.pattern)
 // .Matches(name) holds for one of them, and the handler it returns is one whose
 // pattern matches the name.
+// samePattern: equal token by token; an anonymous placeholder may be reported as * whatever it
+// was registered as.
+func samePattern(got, want string) bool {
+	g, w := refmux.Tokens(got), refmux.Tokens(want)
+	if len(g) != len(w) {
+		return false
+	}
+	for i := range g {
+		if g[i] != w[i] && !(w[i] == "*" && strings.HasPrefix(g[i], "*")) {
+			return false
+		}
+	}
+	return true
+}
+
 func TestPropMuxAgreesWithMatches(t *testing.T) {
 	rapid.Check(t, func(t *rapid.T) {
 		path := rapid.SampledFrom([]string{"", "", "test", "a.b", "a$"}).Draw(t, "path")
@@ -27,6 +43,7 @@ func TestPropMuxAgreesWithMatches(t *testing.T) {
 		var marker []string
 		mounts := map[string]*res.Mux{}
 		nested, maxDepth := 0, 0
+		registered := map[int]string{} // per accepted pattern: what OnRegister was told
 		for i := 0; i < n; i++ {
 			p := genValidPattern().Draw(t, "pattern")
 			if rapid.IntRange(0, 2).Draw(t, "short") > 0 {
@@ -57,7 +74,12 @@ func TestPropMuxAgreesWithMatches(t *testing.T) {
 				cur, rest, key = sub, rest[1:], k
 			}
 			sp := strings.Join(rest, ".")
-			if panics(func() { cur.AddHandler(sp, res.Handler{Call: map[string]res.CallHandler{mk: nil}}) }) {
+			idx := len(full)
+			if panics(func() {
+				cur.AddHandler(sp, res.Handler{Call: map[string]res.CallHandler{mk: nil}, OnRegister: func(_ *res.Service, p res.Pattern, _ res.Handler) {
+					registered[idx] = string(p)
+				}})
+			}) {
 				continue // conflicting registration (same structure, other placeholder names)
 			}
 			if cur != m {
@@ -75,6 +97,64 @@ func TestPropMuxAgreesWithMatches(t *testing.T) {
 		}
 		if len(full) == 0 {
 			return
+		}
+		// Mounted into a service (all registrations were made before): every handler is told
+		// its full pattern, which is the pattern it was registered with below the mount path.
+		if path != "" && refmux.ValidName(path) && !strings.ContainsAny(path, "$*>") && rapid.IntRange(0, 2).Draw(t, "mountToService") == 0 {
+			svc := res.NewService("root")
+			if !panics(func() { svc.Mount("z", m) }) {
+				for i, fp := range full {
+					want := "root.z." + fp
+					if got, ok := registered[i]; ok && !samePattern(got, want) {
+						t.Fatalf("the handler registered with pattern %q was told by OnRegister that its pattern is %q (expected %q; all patterns %q)", fp, got, want, full)
+					}
+				}
+			}
+			return // (a mux can be mounted once: the lookups below are made on unmounted muxes)
+		}
+		if rapid.IntRange(0, 3).Draw(t, "concurrent") == 0 {
+			// several goroutines look names up on the same mux at once: same answers as alone
+			var names []string
+			for k := 0; k < 12; k++ {
+				names = append(names, genNameFor(full[rapid.IntRange(0, len(full)-1).Draw(t, "cfrom")]).Draw(t, "cname"))
+			}
+			type ans struct {
+				found  bool
+				params string
+				group  string
+			}
+			look := func(n string) (a ans) {
+				defer func() { _ = recover() }()
+				if mh := m.GetHandler(n); mh != nil {
+					a = ans{true, fmt.Sprint(mh.Params), mh.Group}
+				}
+				return
+			}
+			alone := map[string]ans{}
+			for _, n := range names {
+				alone[n] = look(n)
+			}
+			var wg sync.WaitGroup
+			var mu sync.Mutex
+			bad := ""
+			for g := 0; g < 4; g++ {
+				wg.Add(1)
+				go func(g int) {
+					defer wg.Done()
+					for r := 0; r < 50; r++ {
+						n := names[(g+r)%len(names)]
+						if a := look(n); a != alone[n] {
+							mu.Lock()
+							bad = fmt.Sprintf("GetHandler(%q) gives %+v when other goroutines look names up on the same mux, %+v alone (patterns %q)", n, a, alone[n], full)
+							mu.Unlock()
+						}
+					}
+				}(g)
+			}
+			wg.Wait()
+			if bad != "" {
+				t.Fatalf("%s", bad)
+			}
 		}
 		nn := rapid.IntRange(1, 8).Draw(t, "nnames")
 		for k := 0; k < nn; k++ {
